@@ -202,7 +202,9 @@ class MacroProgram(ElementProgram):
             )
 
         for (prefix, attr), encoded in tuple(ns.items()):
-            if prefix == TAL or prefix == METAL:
+            # (i18n:target holds an expression like the TAL statements)
+            if prefix == TAL or prefix == METAL or \
+                    (prefix, attr) == (I18N, 'target'):
                 ns[prefix, attr] = decode_htmlentities(encoded)
 
         # Validate namespace attributes
